@@ -239,15 +239,32 @@ def gen(repo):
     c = find_class(tree, 'AggActiveSet')
     fn = find_func(c, '__call__')
     xname = fn.args.args[1].arg
-    ints = [n for n in ast.walk(fn) if isinstance(n, ast.Call) and ast.unparse(n.func) == 'int' and len(n.args) == 1]
-    ints.sort(key=lambda n: (n.lineno, n.col_offset))
-    if len(ints) != 2:
-        raise Unsupported('AggActiveSet.__call__: expected exactly two int(...) counts')
+    # the two count assignments  <name> = <integer expression containing int(...)>; the WHOLE right-hand side is translated
+    cnt = [s for s in ast.walk(fn) if isinstance(s, ast.Assign) and
+           any(isinstance(n, ast.Call) and ast.unparse(n.func) == 'int' for n in ast.walk(s.value))]
+    cnt.sort(key=lambda n: (n.lineno, n.col_offset))
+    if len(cnt) != 2:
+        raise Unsupported('AggActiveSet.__call__: expected exactly two count assignments containing int(...)')
     env = {f'{xname}.size': '(fofZ O size)', 'self.lower_amt': 'la', 'self.upper_amt': 'ua'}
     out.append('Section GenF.\nContext {K : Type} (O : FOps K).\n')
-    for name, node in (('gen_n_lower', ints[0]), ('gen_n_upper', ints[1])):
-        e = FOpsEmitter(env).tr(node.args[0])
-        out.append(f'Definition {name} (la ua : K) (size : Z) : Z :=\n  ftrunc O {e}.\n')
+
+    def ztr(n):
+        if isinstance(n, ast.Call) and ast.unparse(n.func) == 'int' and len(n.args) == 1 and not n.keywords:
+            return f'(ftrunc O {FOpsEmitter(env).tr(n.args[0])})'
+        if isinstance(n, ast.Constant) and isinstance(n.value, int) and not isinstance(n.value, bool):
+            return f'({n.value})%Z'
+        if isinstance(n, ast.BinOp) and type(n.op) in (ast.Add, ast.Sub, ast.Mult):
+            o = {ast.Add: 'Z.add', ast.Sub: 'Z.sub', ast.Mult: 'Z.mul'}[type(n.op)]
+            return f'({o} {ztr(n.left)} {ztr(n.right)})'
+        raise Unsupported('T-fops count: ' + ast.unparse(n)[:120])
+    names = []
+    for name, node in (('gen_n_lower', cnt[0]), ('gen_n_upper', cnt[1])):
+        out.append(f'Definition {name} (la ua : K) (size : Z) : Z :=\n  {ztr(node.value)}.\n')
+        names.append(ast.unparse(node.targets[0]))
+    # the counts must be used unchanged in the two slices  i_sort[:n_lo]  and  i_sort[-n_hi:]
+    slices = [ast.unparse(n.slice) for n in ast.walk(fn) if isinstance(n, ast.Subscript) and isinstance(n.slice, ast.Slice)]
+    if slices != [f':{names[0]}', f'-{names[1]}:']:
+        raise Unsupported('AggActiveSet.__call__: slices changed: ' + repr(slices))
     xrel = [s for s in ast.walk(fn) if isinstance(s, ast.Assign) and isinstance(s.value, ast.BinOp)
             and isinstance(s.value.op, ast.Div) and xname in [n.id for n in ast.walk(s.value) if isinstance(n, ast.Name)]]
     if len(xrel) != 1:
@@ -258,6 +275,14 @@ def gen(repo):
     mn, mx = [t.id for t in mm[0].targets[0].elts]
     e = FOpsEmitter({xname: 'v', mn: 'xmin', mx: 'xmax'}).tr(xrel[0].value)
     out.append(f'Definition gen_xrel (xmin xmax v : K) : K :=\n  {e}.\n')
+    # the two value tests:  <xrel> >= self.lower_rel  and  <xrel> <= self.upper_rel
+    xr_name = ast.unparse(xrel[0].targets[0])
+    cmps = [(type(n.ops[0]).__name__, ast.unparse(n.left), ast.unparse(n.comparators[0])) for n in ast.walk(fn)
+            if isinstance(n, ast.Compare) and len(n.ops) == 1 and ast.unparse(n.comparators[0]) in ('self.lower_rel', 'self.upper_rel')
+            and ast.unparse(n.left) == xr_name]
+    cmps.sort(key=lambda t: t[2])
+    if cmps != [('GtE', xr_name, 'self.lower_rel'), ('LtE', xr_name, 'self.upper_rel')]:
+        raise Unsupported('AggActiveSet.__call__: value tests changed: ' + repr(cmps))
     # the shortcut test and the guards, as text (their structure is compared literally)
     tests = [ast.unparse(s.test) for s in ast.walk(fn) if isinstance(s, ast.If)]
     expect = [f'{mx} - {mn} == 0', 'self.lower_rel > 0', 'self.upper_rel < 1', 'self.lower_amt > 0', 'self.upper_amt < 1']
